@@ -1,6 +1,6 @@
 """C08 Fast-mode dataset equals light-mode items, however it is initialised."""
 import astq
-from rules import cgsize, dsinit, rv64, rvhsem, x86hsem, aeshw, a64dsread
+from rules import cgsize, dsinit, rv64, rvhsem, x86hsem, aeshw, a64dsread, rvdsread
 
 LEVEL = 'other'
 TECHNIQUE = 'affine / interval case analysis of randomx_init_dataset over (count mod 4) x (count < 4) regions, constant-table agreement spec vs C++ vs assembled object, call-sequence and shape rules on the item construction; evaluation of the address-arithmetic slice on a sample set of ranges'
@@ -25,6 +25,9 @@ EXPLANATION += ' RVV-JIT-VLEN.'
 EXPLANATION += ' A64-DSITEM-HSEM.'
 CLAIM += (' The hand-written pieces of the A64 dataset-item routine, executed on terms, are the steps of specification 7.3 (register initialisation with the eight constants, line selection with the mask generateSuperscalarHash writes, XOR of the eight line words, result store, register-value update) (A64-DSITEM-HSEM).')
 
+EXPLANATION += ' RV-DSITEM-HSEM.'
+CLAIM += (' The same for the pieces of the RV64 SuperscalarHash routine, with the constants read from the assembled literal pool (RV-DSITEM-HSEM, both ISA variants).')
+
 
 def run(ctx, R):
     F = astq.Facts(ctx, 'K0')
@@ -38,3 +41,4 @@ def run(ctx, R):
     rvhsem.rule_rvv_ss_hsem(ctx, R)
     aeshw.rule_rvv_jit_vlen(ctx, R)
     a64dsread.rule_dsitem(ctx, R)
+    rvdsread.rule_dsitem(ctx, R)
